@@ -89,7 +89,7 @@ def plain(tree):
 def build(tree, placement=None, ntables=1, table_order="fwd", free_at=None, seqs=(7, 6), stale=None, table_seq=5,
           second_object_table=False, fileobj_threshold=0x800, version=0x400, slack=4, stale_tree=None,
           stale_positions=None, fileobj_base=0x40000, fileobj_gap=0, as_image=False, extra_flags=0, object_table_chain=0,
-          chain_shape="chain", extra_replay_log=False, holes=0, free_size=32, free_only_tables=()):
+          chain_shape="chain", extra_replay_log=False, holes=0, free_size=32, free_only_tables=(), free_flags=0):
     """placement: list (per preorder entry) of table index 1..ntables (default round-robin).
     table_order: 'fwd' | 'rev' order of the entries inside each table (rev puts children before parents).
     free_at: set of global positions before which a Free entry is inserted.
@@ -159,7 +159,10 @@ def build(tree, placement=None, ntables=1, table_order="fwd", free_at=None, seqs
             b = bytearray()
             for it in its:
                 if it[0] == "free":
-                    b += struct.pack(ENT, T_FREE, it[1], 0, 0, 0, 0, 0).ljust(it[1], b"\xEE")
+                    # a freed entry may keep the flag byte (and parent / key bytes) of the value it held
+                    b += (struct.pack(ENT, T_FREE | (free_flags << 8), it[1], 1 if free_flags else 0, 10 if free_flags else 0, 0, 0,
+                                      6 if free_flags else 0) + (b"stale\0" + struct.pack("<IQ", 0x900, 0x7000) if free_flags else b"")
+                          ).ljust(it[1], b"\xEE")
                     continue
                 e, raw, flags, kb, size = it
                 p = ents[e["parent"]] if e["parent"] is not None else None
